@@ -276,6 +276,17 @@ def gen_hier_cases(ctx):
     cases.append(fixed(2, 4, [[0, [[0.0, 2.0]]]], [[1, [[0.0, 1.0]]], [2, [[0.0, 0.5]]]], False, 1))
     cases.append(fixed(1, 4, [[0, [[1.0, 2.0]]], [1, [[1.0, 2.0]]]], [[2, [[1.0, 1.5]]]], True, None))
     cases.append(fixed(3, 6, [[0, [[1.0, 5.0]]], [1, [[2.0, 4.0]]]], [[0, [[0.0, 1.0]]]], False, 2))
+    def fixed2(p, kvx, kvy, steps, fine_steps, trunc, disp, chain):
+        kvs2 = [kvx, kvy]
+        grid = [sorted({kv[0], kv[-1], kv[0] + (kv[-1] - kv[0]) * F(5, 64), kv[0] + (kv[-1] - kv[0]) * F(5, 8)}) for kv in kvs2]
+        pts = [[g[1] for g in grid], [g[2] for g in grid]]
+        return {'kvs': [hexs(kv) for kv in kvs2], 'p': [p, p], 'truncate': trunc, 'disparity': disp, 'steps': steps,
+                'fine_steps': fine_steps, 'chain_steps': chain, 'coeffs': [rng.randint(-8, 8) for _ in range(400)],
+                'grid': [hexs(g) for g in grid], 'points': [hexs(pt) for pt in pts], 'rf_rows': [1, 5, 7, 20],
+                'bdspecs': [[0, 0], [1, 1]], 'dim': 2, '_grid': grid, '_points': pts}
+    # equal degree and knot count in both directions, different knot positions (uniform / graded)
+    cases.append(fixed2(2, [F(0)] * 3 + [F(1), F(2), F(3)] + [F(4)] * 3, [F(0)] * 3 + [F(1, 2), F(1), F(2)] + [F(4)] * 3,
+                        [[0, [[0.0, 2.5], [0.0, 2.5]]]], [[1, [[0.0, 1.5], [0.0, 1.5]]]], True, None, [[0, [[2.0, 4.0], [2.0, 4.0]]]]))
     # warm caches, then a patch that only adds level-1 functions (8 cells, p = 2: first the right end, then cells 1,2)
     cases.append(fixed(2, 8, [[0, [[5.0, 8.0]]]], [[1, [[6.0, 8.0]]]], False, None, chain=[[0, [[1.0, 3.0]]]]))
     n = 240 if thorough else 44
@@ -294,7 +305,38 @@ def gen_hier_cases(ctx):
             nint = [2, 2, rng.randint(2, 3)]
             maxsteps = 2 if thorough else 1
         kvs = []
-        for d in range(dim):
+        # anisotropic spaces: every direction has the same degree and the same number of knots, but the
+        # knots sit at different positions (uniform / graded breakpoints, a double knot at different places)
+        aniso = dim >= 2 and rng.random() < (0.4 if dim == 2 else 0.5)
+        if aniso:
+            pp = max(p)
+            p = [pp] * dim
+            ni = min(nint) if dim == 3 else max(min(nint), 3)
+            nint = [ni] * dim
+            kind = rng.choice(['graded', 'double'] if pp >= 2 else ['graded'])
+            used = set()
+            for d in range(dim):
+                for _try in range(20):
+                    if kind == 'graded':
+                        if d == 0 and rng.random() < 0.6:
+                            b = [F(i) for i in range(ni + 1)]
+                        else:
+                            b = [F(0)]
+                            for _ in range(ni):
+                                b.append(b[-1] + rng.choice([F(1, 2), F(1), F(1), F(2)]))
+                        mults = [pp + 1] + [1] * (ni - 1) + [pp + 1]
+                    else:
+                        b = [F(i) for i in range(ni + 1)] if rng.random() < 0.5 else [F(i, 2) if i < 2 else F(i) - F(1, 2) for i in range(ni + 1)]
+                        j = rng.randrange(1, ni)
+                        mults = [pp + 1] + [2 if i == j else 1 for i in range(1, ni)] + [pp + 1]
+                    kv = []
+                    for x, m in zip(b, mults):
+                        kv += [x] * m
+                    if tuple(kv) not in used:
+                        break
+                used.add(tuple(kv))
+                kvs.append(kv)
+        for d in range(dim if not aniso else 0):
             if rng.random() < 0.25 and dim <= 2:
                 # non-uniform breakpoints, possibly a repeated interior knot
                 b = [F(0)]
